@@ -248,7 +248,11 @@ pub fn check_front(fc: &FileCtx, o: &Opts, front: &str, variant: u64, exp_rows: 
         // c15:error:<msg> -> c06:<front>:error:<msg>; c15:push:<x> / c15:async:<x> -> c06:push:<x> / c06:async:<x>
         let fp = fp.replace("rows-differ-from-sync", "rows-differ");
         if let Some(rest) = fp.strip_prefix("c15:error:") {
-            format!("c06:{front}:error:{rest}")
+            // one class per library message: drop wrappers such as "Arrow: Parquet argument error: "
+            match rest.rfind("Parquet error: ") {
+                Some(i) => format!("c06:{front}:error:{}", &rest[i..]),
+                None => format!("c06:{front}:error:{rest}"),
+            }
         } else if let Some(rest) = fp.strip_prefix("c15:push:") {
             format!("c06:push:{rest}")
         } else if let Some(rest) = fp.strip_prefix("c15:async:") {
@@ -416,6 +420,125 @@ fn run_reader(ctx: &Ctx, st: &mut Stats) {
             "core_classes": {"full": "every selection (2^T bit patterns + none) x 5 presentations x offset{None,0,1,3,T,T+1} x limit{None,0,1,3,T}",
                 "medium": "every selection x 1 presentation (rotating) x offset{None,1,3} x limit{None,1,3}",
                 "small": "12 pattern selections + none x 2 presentations x 4 (offset,limit) pairs"}}),
+    );
+}
+
+// ------------------------------------------------------------------------------------------------
+// type x value-encoding grid: partial-page skips against every value decoder
+
+/// Builds every grid file the writer accepts. Combinations the writer refuses (or silently replaces), and
+/// files whose unrestricted read does not reproduce the written data (write/read round trip = C05's subject),
+/// are excluded and listed in the evidence, not reported here.
+fn build_grid(n: usize, excluded: &mut Vec<String>) -> Vec<FileCtx> {
+    let mut v = vec![];
+    for ty in 0..GRID_TYPES.len() {
+        for enc in grid_encodings(ty) {
+            for v2 in [false, true] {
+                for nullable in [false, true] {
+                    for paged in [true, false] {
+                        let spec = GridSpec { ty, enc, v2, nullable, paged };
+                        let tag = format!("{}/{}/{}", GRID_TYPES[ty], GRID_ENCS[enc], if v2 { "v2" } else { "v1" });
+                        match catch(|| make_grid_file(spec, n)) {
+                            Ok(Ok(f)) => {
+                                let written = f.written.clone();
+                                match catch(|| FileCtx::new(f)) {
+                                    Ok(Ok(fc)) if fc.full == written => v.push(fc),
+                                    Ok(Ok(_)) => excluded.push(format!("{tag}: unrestricted read differs from the written data")),
+                                    Ok(Err(e)) => excluded.push(format!("{tag}: unrestricted read failed: {}", vcore::strip_digits(&e))),
+                                    Err(p) => excluded.push(format!("{tag}: unrestricted read panicked: {}", p.fingerprint())),
+                                }
+                            }
+                            Ok(Err(e)) => excluded.push(format!("{tag}: not written: {}", vcore::strip_digits(&e))),
+                            Err(p) => excluded.push(format!("{tag}: writer panicked: {}", p.fingerprint())),
+                        }
+                    }
+                }
+            }
+        }
+    }
+    excluded.sort();
+    excluded.dedup();
+    v
+}
+
+fn run_grid(ctx: &Ctx, st: &mut Stats) {
+    let n = ctx.pick(8, 10);
+    let mut excluded = vec![];
+    let files = build_grid(n, &mut excluded);
+    let pred = vec![Pred { kind: PredKind::Hash(1), leaves: vec![0] }];
+    // sync configurations: both explicit selection policies (their skip paths differ), with / without the
+    // page index (whole-page skipping vs decoder skipping), small batches, late materialisation
+    let cfgs: Vec<Opts> = vec![
+        Opts { policy: 1, ..Default::default() },
+        Opts { policy: 2, page_index: true, batch: Some(2), ..Default::default() },
+        Opts { preds: pred, ..Default::default() },
+    ];
+    let push_cfg = Opts { page_index: true, ..Default::default() };
+    let ol: Vec<(Option<usize>, Option<usize>)> = if ctx.quick() {
+        vec![(None, None), (Some(1), None), (None, Some(3)), (Some(3), Some(1))]
+    } else {
+        core_menus(Core::Full, n, 0).1
+    };
+    let push_ol = [(None, None), (Some(2), Some(3))];
+    let nsel = 1 + (1u64 << n);
+    let total = files.len() as u64 * nsel;
+    let res = par_for(ctx, "encoding-grid", total, 16, |idx, st| {
+        let fc = &files[(idx / nsel) as usize];
+        let k = idx % nsel;
+        let bits = selection_bits(Core::Full, n, k);
+        for (ci, cfg) in cfgs.iter().enumerate() {
+            let p = ((k + ci as u64) % 5) as u8;
+            for &(off, lim) in &ol {
+                let mut o = cfg.clone();
+                o.sel = bits.as_ref().map(|b| SelSpec { bits: b.clone(), pres: p });
+                o.offset = off;
+                o.limit = lim;
+                match check_read(fc, &o, false) {
+                    Ok(out) => {
+                        st.add("encoding-grid-reader", 1, (out.out_rows > 0 && out.out_rows < fc.f.nrows) as u64);
+                        st.outcome(&format!("grid/{}", if out.out_rows == 0 { "no-rows" } else if out.out_rows == fc.f.nrows { "all-rows" } else { "some-rows" }));
+                    }
+                    Err((fp, msg)) => {
+                        st.add("encoding-grid-reader", 1, 1);
+                        st.outcome("violation");
+                        st.violate(idx, fp, format!("{} {}: {}", fc.f.name, opts_json(&o), msg), || case_json(fc, &o));
+                    }
+                }
+            }
+        }
+        for &(off, lim) in &push_ol {
+            let mut o = push_cfg.clone();
+            o.sel = bits.as_ref().map(|b| SelSpec { bits: b.clone(), pres: (k % 5) as u8 });
+            o.offset = off;
+            o.limit = lim;
+            let (exp_rows, _, _) = fc.reference(&o);
+            st.add("encoding-grid-push", 1, (!exp_rows.is_empty() && exp_rows.len() < fc.f.nrows) as u64);
+            match check_front(fc, &o, "push", k, &exp_rows) {
+                Ok(()) => st.outcome("grid/push/agree"),
+                Err((fp, msg)) => {
+                    st.outcome("violation");
+                    st.violate(idx, fp, format!("{} {} [push]: {}", fc.f.name, opts_json(&o), msg), || front_case_json(fc, &o, "push", k));
+                }
+            }
+        }
+        if idx == total / 2 {
+            let mut o = cfgs[0].clone();
+            o.sel = bits.as_ref().map(|b| SelSpec { bits: b.clone(), pres: 0 });
+            st.sample("encoding-grid-reader", || case_json(fc, &o));
+        }
+    });
+    st.merge(res);
+    let mut per_combo: BTreeMap<String, u64> = BTreeMap::new();
+    for fc in &files {
+        let g = fc.f.grid.unwrap();
+        *per_combo.entry(format!("{} [{}] / {}", GRID_TYPES[g.ty], GRID_PHYS[g.ty], GRID_ENCS[g.enc])).or_default() += 1;
+    }
+    st.extra.insert(
+        "encoding_grid".into(),
+        json!({"files": files.len(), "rows_per_file": n, "axes": "arrow type x value encoding (every encoding the format defines for the physical type) x data page v1/v2 x required/nullable (nulls at i%3==1) x {3 rows per page, one page}",
+            "files_per_type_and_encoding": per_combo, "excluded": excluded,
+            "per_file": "every selection (2^n + none) x 3 sync configurations (policy Selectors; policy Mask + page index + batch 2; row filter on the column) x rotating presentation x offset/limit menu, plus the push decoder with page index x 2 (offset,limit) pairs",
+            "offset_limit_menu": ol.iter().map(|(o, l)| format!("{o:?}/{l:?}")).collect::<Vec<_>>()}),
     );
 }
 
@@ -740,7 +863,7 @@ pub fn replay(case: &Value) -> Result<(), String> {
     match case["sub"].as_str().unwrap_or("") {
         "reader" => {
             let f = &case["file"];
-            let file = make_file(f["sid"].as_u64().unwrap() as usize, f["layout"].as_u64().unwrap() as usize, f["rows"].as_u64().unwrap() as usize);
+            let file = pqfile_from_json(f)?;
             let fc = FileCtx::new(file)?;
             let o = opts_from_json(&case["opts"]);
             let (rows, schema, bs) = fc.reference(&o);
@@ -752,7 +875,7 @@ pub fn replay(case: &Value) -> Result<(), String> {
         }
         "front-end" => {
             let f = &case["file"];
-            let file = make_file(f["sid"].as_u64().unwrap() as usize, f["layout"].as_u64().unwrap() as usize, f["rows"].as_u64().unwrap() as usize);
+            let file = pqfile_from_json(f)?;
             let fc = FileCtx::new(file)?;
             let o = opts_from_json(&case["opts"]);
             let (rows, _, _) = fc.reference(&o);
@@ -782,15 +905,25 @@ pub fn run(ctx: &Ctx) -> ! {
         std::process::exit(if matches!(r, Ok(Ok(()))) { 0 } else { 1 });
     }
     let mut st = Stats::new();
-    run_algebra(ctx, &mut st);
-    run_reader(ctx, &mut st);
+    // developer aid: `--only=algebra|grid|reader` runs one sub-engine
+    let only = ctx.extra_args.iter().find_map(|a| a.strip_prefix("--only=").map(|s| s.to_string()));
+    let want = |name: &str| only.as_deref().is_none_or(|o| o == name);
+    if want("algebra") {
+        run_algebra(ctx, &mut st);
+    }
+    if want("grid") {
+        run_grid(ctx, &mut st);
+    }
+    if want("reader") {
+        run_reader(ctx, &mut st);
+    }
     vcore::finish(
         ctx,
         Level {
             category: "exploration",
             rule: "nothing is sampled. reader / push decoder / async stream: every (front end, file, option configuration, selection, presentation, offset, limit) point of the stated product is one evaluation, all distinct by construction; it counts as non-trivial when the expected output is a proper non-empty subset of the file's rows. algebra: every (selection, presentation) and every ordered pair of (selection, presentation) over total length <= 6; non-trivial when the operands are non-empty".into(),
             assumptions: vec![
-                "files of 8 (quick) / 10 (thorough) rows written by ArrowWriter; 6 schemas x 6 physical layouts; larger files and other encodings are not covered".into(),
+                "files of 8 (quick) / 10 (thorough) rows written by ArrowWriter; 6 nested/flat schemas x 6 physical layouts, plus a flat single-column grid of 14 arrow types x every value encoding of their physical type x v1/v2 pages x nullability x 2 page layouts; larger files are not covered".into(),
                 "non-core option dimensions are combined up to 2 deviations from the default".into(),
                 "predicates are pure row-wise functions of the predicate's projected columns (as ArrowPredicate requires)".into(),
                 "row selections never extend past the rows of the chosen row groups".into(),
